@@ -61,8 +61,9 @@ Section Run.
         end
     end.
 
-  (** run(): events = list of (pattern, response); patterns are compiled to regexes (expect()), no search window *)
-  Definition run (fuel : nat) (events : list (entry rx * resp)) (evs : list ev) : result :=
-    run_loop fuel {| ckind := KRe; pats := map fst events; W := None |} (map snd events)
+  (** run(): events = list of (pattern, response); patterns are compiled to regexes (expect()) *)
+  (** [Wd]: a searchwindowsize given to run() is handed on to the spawn object *)
+  Definition run (fuel : nat) (Wd : option nat) (events : list (entry rx * resp)) (evs : list ev) : result :=
+    run_loop fuel {| ckind := KRe; pats := map fst events; W := Wd |} (map snd events)
              {| pend := []; buf := [] |} evs [] [].
 End Run.
